@@ -336,6 +336,21 @@ def apply_op(mab, o, label, inv, case):
             feats = {label(a): list(f) for a, f in zip(o[1], o[2])}
             mab.warm_start(feats, o[3])
             return ("done",)
+        if k in ("fitS", "pfitS"):
+            import pandas as pd
+            ds = np.asarray([label(d) for d in o[1]]); rs = np.asarray(list(o[2]), dtype=float)
+            (mab.fit if k == "fitS" else mab.partial_fit)(ds, rs, pd.Series([float(v) for v in o[3]]))
+            return ("done",)
+        if k in ("predS", "pexpS"):
+            import pandas as pd
+            r = (mab.predict if k == "predS" else mab.predict_expectations)(pd.Series([float(v) for v in o[1]]))
+            if k == "predS":
+                if isinstance(r, list):
+                    return ("arms", [inv(a) for a in r])
+                return ("arm", inv(r))
+            if isinstance(r, list):
+                return ("exps", [[(inv(a), canon_val(v)) for a, v in d.items()] for d in r])
+            return ("exp", [(inv(a), canon_val(v)) for a, v in r.items()])
         if k in ("pred", "pexp"):
             cx = to_ctx(o[1])
             r = (mab.predict if k == "pred" else mab.predict_expectations)(cx)
@@ -373,6 +388,14 @@ def oracle_before(mab, o, inv, case):
     orc = {k: list(v) for k, v in EMPTY_ORC.items()}
     imp = mab._imp
     mod = type(imp).__name__
+    if o[0] in ("predS", "pexpS") and mab._is_initial_fit:
+        # the oracles are computed for the rows the implementation itself makes of the Series
+        try:
+            import pandas as pd
+            conv = mab._MAB__convert_context(pd.Series([float(v) for v in o[1]]))
+            o = ("pred" if o[0] == "predS" else "pexp", [list(map(float, r)) for r in np.asarray(conv, dtype=float)])
+        except Exception:
+            return orc
     if o[0] in ("pred", "pexp") and o[1] is not None and mab._is_initial_fit:
         cx = np.asarray(o[1], dtype=float)
         orc["sizes"] = [len(cx)]
@@ -405,6 +428,9 @@ def oracle_before(mab, o, inv, case):
 def oracle_after(mab, o, inv, case, orc, label):
     imp = mab._imp
     mod = type(imp).__name__
+    if o[0] in ("fitS", "pfitS"):
+        vals = [float(v) for v in o[3]]
+        o = ("fit" if o[0] == "fitS" else "pfit", o[1], o[2], [[v] for v in vals] if len(o[1]) > 1 else [vals])
     if o[0] in ("fit", "pfit") and o[3] is not None:
         try:
             if mod == "_Clusters" and hasattr(imp.kmeans, "labels_"):
@@ -515,6 +541,11 @@ def op_tokens(o, orc=None):
         return t
     if k in ("pred", "pexp"):
         return [k] + ctx_tokens(o[1]) + orc_tokens(orc)
+    if k in ("fitS", "pfitS"):
+        return ["fits" if k == "fitS" else "pfits", str(len(o[1]))] + [str(d) for d in o[1]] + [str(len(o[2]))] + [str(fbits(r)) for r in o[2]] + \
+               [str(len(o[3]))] + [str(fbits(v)) for v in o[3]] + orc_tokens(orc)
+    if k in ("predS", "pexpS"):
+        return ["preds" if k == "predS" else "pexps", str(len(o[1]))] + [str(fbits(v)) for v in o[1]] + orc_tokens(orc)
     raise ValueError(o)
 
 def case_text(cid, case, tape, orcs=None):
